@@ -44,6 +44,8 @@ pub mod sortcase;
 pub mod downloader;
 
 #[cfg(test)]
+pub mod hooksys;
+#[cfg(test)]
 pub mod replay;
 #[cfg(test)]
 pub mod scenarios;
